@@ -320,19 +320,35 @@ func (fc *FC) LitField(typeName, field string) *RF {
 // the value carried by the back edge(s).
 func (fc *FC) Recurrence(r *RF) (init, next *RF) {
 	at := r.SingleAtom()
-	if at == nil {
-		anchorFail("not a loop-carried value: %s", clip(r.String(), 200))
+	if at != nil {
+		if mp, isMem := fc.X.memphiOf[at.ID]; isMem {
+			return mp.fc.memRecurrence(mp, at.Name)
+		}
 	}
-	if mp, isMem := fc.X.memphiOf[at.ID]; isMem {
-		return mp.fc.memRecurrence(mp, at.Name)
+	if _, isPhi := fc.X.phiOf[atomIDOf(at)]; at == nil || !isPhi {
+		// an expression over one loop-carried quantity and loop-invariant values (a counter
+		// plus an offset, a running sum plus the terms added after the loop): its value in the
+		// first and in the next iteration follow from that quantity's
+		var carried []*Atom
+		for _, a := range r.Atoms(true) {
+			if _, ok := fc.X.phiOf[a.ID]; ok {
+				carried = append(carried, a)
+			} else if _, ok := fc.X.memphiOf[a.ID]; ok {
+				carried = append(carried, a)
+			}
+		}
+		if len(carried) != 1 {
+			anchorFail("not a loop-carried value: %s", clip(r.String(), 200))
+		}
+		ci, cn := fc.Recurrence(fc.X.S.atomRF(carried[0].ID))
+		return r.Subst(map[AtomID]*RF{carried[0].ID: ci}), r.Subst(map[AtomID]*RF{carried[0].ID: cn})
 	}
-	p, ok := fc.X.phiOf[at.ID]
-	if !ok {
-		anchorFail("not a loop-carried value: %s", at.Name)
-	}
+	p := fc.X.phiOf[at.ID]
 	pfc := fc.X.phiFC[at.ID]
 	vals, preds := pfc.Ctx.PhiLiveEdges(p)
 	conflict := false
+	initBy := map[int]*RF{}
+	initConflict := false
 	for i, v := range vals {
 		rv := pfc.Val(v)
 		if pfc.Ctx.Dominates(p.Block(), preds[i]) {
@@ -342,9 +358,18 @@ func (fc *FC) Recurrence(r *RF) (init, next *RF) {
 			next = rv
 		} else {
 			if init != nil && !init.Equal(rv) {
-				anchorFail("several different initial values for %s", at.Name)
+				initConflict = true
 			}
 			init = rv
+			initBy[preds[i].Index] = rv
+		}
+	}
+	if initConflict {
+		// the loop is entered along several edges carrying different values (branches that
+		// run straight into the header): the initial value is their gated merge
+		init = pfc.mergeAt(p.Block(), func(pb *ssa.BasicBlock) *RF { return initBy[pb.Index] })
+		if init == nil {
+			anchorFail("several different initial values for %s", at.Name)
 		}
 	}
 	if conflict {
@@ -357,6 +382,13 @@ func (fc *FC) Recurrence(r *RF) (init, next *RF) {
 		anchorFail("%s is not a loop-header phi", at.Name)
 	}
 	return
+}
+
+func atomIDOf(a *Atom) AtomID {
+	if a == nil {
+		return -1
+	}
+	return a.ID
 }
 
 func sameLoop(a, b *Loop) bool {
@@ -594,6 +626,69 @@ func (fc *FC) ReturnCond(match func(r *ssa.Return) bool) (*RF, int) {
 	return acc, n
 }
 
+// ContinueCond: the condition, within one iteration of the loop headed by hdr
+// (at its loop-carried values), under which the iteration runs to a back edge,
+// i.e. the loop goes round again.
+func (fc *FC) ContinueCond(hdr *ssa.BasicBlock) *RF {
+	s := fc.X.S
+	cont := s.False()
+	for _, p := range fc.Ctx.LivePreds(hdr) {
+		if fc.Ctx.Dominates(hdr, p) {
+			cont = s.Or(cont, s.And(fc.ReachCondFrom(hdr, p), fc.edgeCond(p, hdr)))
+		}
+	}
+	return cont
+}
+
+// ResAlt: one alternative of a function result — the SSA value returned (or
+// merged into the returned value along one edge) and the condition under
+// which that alternative is the result.
+type ResAlt struct {
+	V    ssa.Value
+	Cond *RF
+	Ret  *ssa.Return
+}
+
+// ResultAlts: the alternatives of result i over every live return, with a
+// result that is merged at a join (a named result assigned on several
+// branches and returned once) split into one alternative per incoming edge.
+// The function's relevant region must be loop-free (ReachCond's contract).
+func (fc *FC) ResultAlts(i int) []ResAlt {
+	s := fc.X.S
+	var out []ResAlt
+	var expand func(v ssa.Value, cond *RF, rt *ssa.Return, at *ssa.BasicBlock, depth int)
+	expand = func(v ssa.Value, cond *RF, rt *ssa.Return, at *ssa.BasicBlock, depth int) {
+		if ph, ok := v.(*ssa.Phi); ok && depth < 8 {
+			vals, preds := fc.Ctx.PhiLiveEdges(ph)
+			header := false
+			for _, pr := range preds {
+				if fc.Ctx.Dominates(ph.Block(), pr) {
+					header = true
+				}
+			}
+			if !header && (ph.Block() == at || fc.Ctx.Dominates(ph.Block(), at)) {
+				onward := s.True()
+				if ph.Block() != at {
+					onward = fc.ReachCondFrom(ph.Block(), at)
+				}
+				for k, pv := range vals {
+					c := s.And(s.And(fc.ReachCond(preds[k]), fc.edgeCond(preds[k], ph.Block())), onward)
+					expand(pv, c, rt, preds[k], depth+1)
+				}
+				return
+			}
+		}
+		out = append(out, ResAlt{v, cond, rt})
+	}
+	for _, rt := range fc.Ctx.Returns() {
+		if i >= len(rt.Results) {
+			continue
+		}
+		expand(rt.Results[i], fc.ReachCond(rt.Block()), rt, rt.Block(), 0)
+	}
+	return out
+}
+
 // returnsGlobal: result i of r is a load of the package-level variable name.
 func returnsGlobal(r *ssa.Return, i int, name string) bool {
 	if i >= len(r.Results) {
@@ -782,6 +877,16 @@ func (fc *FC) loopPhis(r *RF) []*RF {
 			}
 			seen[at.ID] = true
 			v := fc.X.S.atomRF(at.ID)
+			if ph := fc.X.phiOf[at.ID]; !fc.X.phiFC[at.ID].isHeaderPhi(ph) {
+				// a value merged at a join the extractor could not gate: not loop-carried itself,
+				// but the values it merges may be
+				pfc := fc.X.phiFC[at.ID]
+				vals, _ := pfc.Ctx.PhiLiveEdges(ph)
+				for _, pv := range vals {
+					visit(pfc.Val(pv))
+				}
+				continue
+			}
 			out = append(out, v)
 			func() {
 				defer func() { recover() }()
@@ -792,6 +897,16 @@ func (fc *FC) loopPhis(r *RF) []*RF {
 	}
 	visit(r)
 	return out
+}
+
+func (fc *FC) isHeaderPhi(p *ssa.Phi) bool {
+	_, preds := fc.Ctx.PhiLiveEdges(p)
+	for _, pr := range preds {
+		if fc.Ctx.Dominates(p.Block(), pr) {
+			return true
+		}
+	}
+	return false
 }
 
 type recSpec struct{ name, init, next string }
